@@ -81,6 +81,15 @@ def run(cx):
                   f'{short}: on every path the result is the argument shifted by a multiple of 2*pi (taken through `% 2pi` and `+- 2pi` only): it denotes the same direction', where=b.file)
         if rr and within(rr, lo, hi) and fn in ('common::angles::angle_to_2pi', 'common::angles::angle_signed_pi', 'geom2::angles2::signed_angle'):
             summ[fn] = (lo, hi, cong and rr[2])
+    # directed_angle of two vectors in the SAME direction is zero in both senses (not a full turn): with the signed angle pinned to 0
+    # the interpreter must find the result range [0, 0] (a wrap test `a <= 0` would add 2*pi at zero)
+    b = cx.fn('geom2::angles2::directed_angle')
+    if b:
+        it0 = R.analyse(b, dict(summ, **{'geom2::angles2::signed_angle': (0.0, 0.0, False)}))
+        rr0 = R.result_range(it0)
+        cx.ob('RANGE', 'directed_angle:zero-stays-zero', rr0 is not None and not it0.problems and abs(rr0[0]) < 1e-12 and abs(rr0[1]) < 1e-12,
+              'when the signed angle between the vectors is 0 the directed angle is 0 for Cw and for Ccw (the 2*pi correction applies to strictly negative angles only): "Cw + Ccw is a full turn or both are zero"',
+              where=b.file, found=f'[{rr0[0]:.6g}, {rr0[1]:.6g}]' if rr0 else None)
     # AngleInterval::new: both stored fields
     b = cx.fn('common::angles::AngleInterval::new')
     if b:
